@@ -189,3 +189,11 @@ contract(MAC + '.generate_variant_bytecode_parts', name='placeholders', props=['
                                'forall(lambda j: implies(0 <= j and j < i, ' + CLEAN.format(s='elems(instruction_lines)[j]') + '))']),
                 '0.0': dict(idx='m', modifies=[], types={'instruction_str': 'str'},
                             inv=['m >= 0', 'len(instruction_lines) == i'])})
+
+
+# ---- what a placeholder is filled with: @ARG(n) is the text of the operand's ARGUMENT part and nothing else -------------
+# (an operand without an argument part -- a register -- cannot fill @ARG: the text is None, which leaves the placeholder in
+#  the step and the `substitute` block above then rejects it)
+contract('bespokeasm.assembler.model.operand:ParsedOperand.operand_argument_string', name='arg-placeholder-text',
+         props=['C10'], returns='str?', may_raise={'SystemExit': 'True'},
+         ensures=['(result is None) == (self._argument is None)'], modifies=[], no_frame_check=True)
